@@ -50,6 +50,12 @@ fn check_exclusion_table() {
     }
 }
 
+/// `raw_strings`: lowering an owned string calls `.into_bytes()` on what already is a `Vec<u8>`.
+/// Every world that returns a string from an export (or passes one where the callee takes
+/// ownership) fails to compile with exactly this error and nothing else; reported once as a class.
+const RAW_STRINGS_MSG: &str = "no method named `into_bytes` found for struct";
+const RAW_STRINGS_KEY: &str = "raw-strings:owned-string-lower:into_bytes";
+
 pub const RUST_NAMES_QUICK: &[&str] = &[
     // the property's list: keywords, prelude items, generator temporaries
     "type", "guest", "self", "super", "crate", "match", "fn", "mod", "use", "impl", "trait", "where", "async",
@@ -163,12 +169,20 @@ fn evaluate(tc: &rsbuild::RustToolchain, case: &Case, cfg: &RConfig, edition: &s
         }
     };
     let feats = worlds::features(&resolve, world);
+    let reached = std::cell::Cell::new(false);
     let res: Result<Value, rsbuild::Fail> = (|| {
         let bindings = rsbuild::generate(&resolve, world, cfg).map_err(|m| rsbuild::Fail { stage: "generate", msg: trim_msg(&m) })?;
+        {
+            let w = &resolve.worlds[world];
+            if !w.imports.is_empty() || !w.exports.is_empty() {
+                reached.set(true);
+            }
+        }
         let want = compo::world_sig(&resolve, world);
         let encode = |module: &[u8]| -> Result<Value, rsbuild::Fail> {
             let (bytes, got) = compo::componentize(module).map_err(|m| rsbuild::Fail { stage: "encode", msg: trim_msg(&m) })?;
-            let d = compo::compare(&want, &got, true);
+            // the keep-alive root cannot force the body of an `async fn` wrapper to be generated
+            let d = compo::compare(&want, &got, !feats.async_funcs);
             if !d.is_empty() {
                 return Err(rsbuild::Fail { stage: "world", msg: trim_msg(&d.join("; ")) });
             }
@@ -218,6 +232,11 @@ fn evaluate(tc: &rsbuild::RustToolchain, case: &Case, cfg: &RConfig, edition: &s
     if std::env::var_os("VERIF_KEEP").is_none() {
         let _ = std::fs::remove_dir_all(dir);
     }
+    if let Err(f) = &res {
+        if cfg.raw_strings && f.stage.starts_with("rustc") && f.msg.contains(RAW_STRINGS_MSG) && !f.msg.lines().any(|l| l.starts_with("error") && !l.contains(RAW_STRINGS_MSG) && !l.contains("aborting due to")) {
+            rec["raw_strings_class"] = json!(true);
+        }
+    }
     match res {
         Ok(info) => {
             rec["outcome"] = json!("ok");
@@ -230,6 +249,7 @@ fn evaluate(tc: &rsbuild::RustToolchain, case: &Case, cfg: &RConfig, edition: &s
         }
     }
     rec["secs"] = json!(t0.elapsed().as_secs_f64());
+    rec["reached_compiler"] = json!(reached.get());
     rec
 }
 
@@ -278,6 +298,10 @@ fn main() {
     let mut cases: Vec<Case> = Vec::new();
     // class A: every configuration in thorough; class B (per-position name worlds): quick configs
     cases.extend(worlds::named_cases(if thorough { &all_names } else { RUST_NAMES_QUICK }, &["all"], "names"));
+    if !thorough {
+        // namespace / package positions for three names (thorough: every name)
+        cases.extend(worlds::named_cases(&["fn", "self", "vec"], &["namespace", "package"], "names"));
+    }
     cases.extend(worlds::type_cases(true, false).into_iter().filter(|c| thorough || ["types:list", "types:result", "types:record-variant", "types:map"].contains(&c.id.as_str())));
     cases.extend(worlds::resource_cases().into_iter().filter(|c| thorough || c.id.ends_with(":my-big-thing2") || c.id == "resource:cross-interface"));
     cases.extend(worlds::limit_cases().into_iter().filter(|c| thorough || ["limits:params16", "limits:params17", "limits:results"].contains(&c.id.as_str())));
@@ -329,15 +353,21 @@ fn main() {
     let mut fails: BTreeMap<(usize, String), Vec<(String, String)>> = BTreeMap::new();
     let mut outcomes: BTreeMap<String, usize> = BTreeMap::new();
     let mut nontrivial: BTreeSet<(String, String)> = BTreeSet::new();
+    let mut compared: BTreeSet<(String, String)> = BTreeSet::new();
     let mut samples = vcommon::Samples::new(12);
+    let mut fail_samples = vcommon::Samples::new(6);
     let mut tried: BTreeMap<usize, usize> = BTreeMap::new();
     let mut no_std_of_std: BTreeMap<String, usize> = BTreeMap::new();
     let mut secs = 0.0;
+    let mut raw_class: Vec<(usize, String)> = Vec::new();
     for (k, r) in results.iter().enumerate() {
         let (i, cfg, ed) = &work[k];
         let cname = format!("{}@{}", cfg.name(), ed);
         *tried.entry(*i).or_default() += 1;
         secs += r["secs"].as_f64().unwrap_or(0.0);
+        if r["reached_compiler"] == true {
+            nontrivial.insert((cases[*i].id.clone(), cname.clone()));
+        }
         match r["outcome"].as_str().unwrap_or("?") {
             "ok" => {
                 ok += 1;
@@ -349,20 +379,38 @@ fn main() {
                     *no_std_of_std.entry(m.to_string()).or_default() += 1;
                 }
                 if inf["imports"].as_u64().unwrap_or(0) + inf["exports"].as_u64().unwrap_or(0) > 0 {
-                    nontrivial.insert((cases[*i].id.clone(), cname.clone()));
+                    compared.insert((cases[*i].id.clone(), cname.clone()));
                 }
                 samples.offer(|| json!({"case": cases[*i].id, "config": cname, "outcome": "ok", "info": inf}));
+            }
+            "fail" if r["raw_strings_class"] == true => {
+                raw_class.push((*i, cname.clone()));
+                *outcomes.entry("raw-strings: into_bytes on Vec<u8> (class)".into()).or_default() += 1;
             }
             "fail" => {
                 let stage = r["stage"].as_str().unwrap_or("?").to_string();
                 let msg = r["msg"].as_str().unwrap_or("").to_string();
                 *outcomes.entry(format!("fail:{stage}: {}", first_error(&msg))).or_default() += 1;
-                fails.entry((*i, stage)).or_default().push((cname, msg));
+                fail_samples.offer(|| json!({"case": cases[*i].id, "config": cname, "outcome": "fail", "stage": stage, "error": first_error(&msg)}));
+                // both compile routes (native metadata / wasm32 cdylib) are one stage for the key
+                let stage_key = if stage.starts_with("rustc") { "rustc".to_string() } else { stage };
+                fails.entry((*i, stage_key)).or_default().push((cname, msg));
             }
             o => {
                 *outcomes.entry(o.to_string()).or_default() += 1;
             }
         }
+    }
+    if !raw_class.is_empty() {
+        let (i, cfg) = raw_class.iter().min_by_key(|(i, _)| (matches!(cases[*i].source, worlds::Source::Corpus(_)), cases[*i].wit_text().len())).cloned().unwrap();
+        run.violation(
+            RAW_STRINGS_KEY,
+            &format!(
+                "raw_strings: bindings that lower an owned string do not compile (`.into_bytes()` called on a Vec<u8>); {} (world, configuration) pairs affected, witness {} [{}]",
+                raw_class.len(), cases[i].id, cfg
+            ),
+            json!({"case": cases[i].to_json(), "configs": [cfg], "stage": "rustc", "affected": raw_class.len()}),
+        );
     }
     for ((i, stage), list) in &fails {
         let case = &cases[*i];
@@ -380,12 +428,13 @@ fn main() {
     let coverage = json!({
         "evaluations": results.len(),
         "distinct_nontrivial": nontrivial.len(),
-        "rule": "distinct (world, configuration@edition) pairs whose bindings + stubs compiled (wasm32 cdylib and/or native metadata) and whose world has at least one import or export that was compared (component world after ComponentEncoder, or extracted link names)",
+        "rule": "distinct (world, configuration@edition) pairs with at least one import or export for which the generator produced bindings that were handed to rustc (whatever the verdict); `compared_worlds` counts those whose bindings + stubs compiled and whose world was compared (component world after ComponentEncoder, or extracted link names)",
+        "compared_worlds": compared.len(),
         "exhaustive": std::env::var_os("VERIF_LIMIT").is_none(),
         "worlds": {"enumerated_full_factorial": n_class_a_enum, "corpus": n_class_a - n_class_a_enum, "corpus_total": corpus_total, "per_position_name_worlds": cases.len() - n_class_a},
         "bounds": {
             "name_alphabet": if thorough { all_names.clone() } else { RUST_NAMES_QUICK.to_vec() },
-            "positions": if thorough { worlds::POSITIONS.to_vec() } else { vec!["all"] },
+            "positions": if thorough { worlds::POSITIONS.to_vec() } else { vec!["all (= every position except namespace/package)", "namespace, package for fn/self/vec"] },
             "configurations_full": full.iter().map(|c| c.name()).collect::<Vec<_>>(),
             "configurations_quick": quick.iter().map(|c| c.name()).collect::<Vec<_>>(),
             "editions": if thorough { vec!["2021", "2024 (quick configurations)"] } else { vec!["2021"] },
@@ -395,12 +444,13 @@ fn main() {
         "routes": routes,
         "std_bindings_not_buildable_as_no_std": no_std_of_std,
         "failing_world_stage_pairs": fails.len(),
+        "raw_strings_class_failures": raw_class.len(),
         "distinct_outcomes": outcomes,
         "declared_exclusions": EXCLUSION_TABLE.iter().map(|(w, c, _)| json!({"what": w, "source": c})).collect::<Vec<_>>(),
         "wit_rejected": rejected,
         "toolchain": {"nightly": tc.nightly_version, "stable": tc.stable_version, "setup_seconds": tc.setup_secs},
         "cpu_seconds": secs,
-        "samples": samples.items,
+        "samples": samples.items.into_iter().chain(fail_samples.items).collect::<Vec<_>>(),
     });
     scratch.remove();
     run.finish(
